@@ -56,6 +56,8 @@ class Net:
         self.sendloss = 0
         self.ackloss = 0
         self.lat_lo, self.lat_hi = 0.002, 0.03
+        self.armed: list[dict] = []     # state-triggered faults: fail the n-th send made while the runner is in a state
+        self.runner = None
         self.attempts: dict[int, list[tuple[float, bool]]] = {}      # id(msg) -> [(time, sender saw success)]
         self.deliveries: list[tuple[float, int, str, int, Any]] = []   # time, id(msg), type, seq, run_id
         self.keep: list[Any] = []
@@ -95,7 +97,10 @@ class SimEngineDispatcher(EngineDispatcher):
     async def send_async(self, message):
         net = self.net
         if self._engine_id is None:
-            raise ProtocolNetworkException("sim: no engine id")
+            # as the real send_async: not a network error, so _post_async does not catch it
+            from openpectus.protocol.exceptions import ProtocolException
+            net.res.probe("send_without_engine_id")
+            raise ProtocolException("Engine did not have engine_id yet")
         message.engine_id = self._engine_id
         self.assign_sequence_number(message)
         mid = id(message)
@@ -112,6 +117,19 @@ class SimEngineDispatcher(EngineDispatcher):
             fail("send_while_link_down")
         if not net.conn_alive:
             fail("send_on_dead_connection")
+        trig = None
+        for a in net.armed:
+            if net.runner is not None and net.runner.state == a["state"] and \
+                    (a["type"] is None or a["type"] == type(message).__name__):
+                a["seen"] += 1
+                if a["seen"] == a["nth"] and trig is None:
+                    trig = a
+        if trig is not None:
+            net.armed.remove(trig)
+            if trig["kind"] == "sendloss":
+                fail(f"send_lost_in_{trig['state']}")
+            net.ackloss += 1
+            net.res.fault(f"ack_loss_armed_in_{trig['state']}")
         if net.sendloss > 0:
             net.sendloss -= 1
             fail("send_lost_before_delivery")
@@ -136,7 +154,34 @@ class SimR(Simulator):
                        "far end: recording endpoint that acknowledges", "asyncio event loop: virtual time",
                        "engine_runner.random (back-off from the decision tape), engine_runner.time"]
 
+    def _gen_armed(self, rng: random.Random) -> dict:
+        """Faults placed inside the recovery protocol: an outage, then the n-th send of a drawn kind fails (or loses its
+        acknowledgement) while the runner is catching up / has just reconnected; optionally a second round."""
+        method = [["L000", "Mark: a"], ["L001", "Wait: 2s"], ["L002", "Mark: b"], ["L003", "Ramp: 5"], ["L004", "Mark: c"]]
+        ops: list[list] = []
+        t = 1.0
+        if rng.random() < 0.8:
+            ops.append([t, "user", "Start"])
+        for _ in range(rng.randint(1, 3)):
+            t += rng.choice([0.5, 2.0, 4.0])
+            for _ in range(rng.randint(1, 2)):
+                ops.append([round(t, 3), "arm", rng.choice(["CatchingUp", "CatchingUp", "CatchingUp", "Reconnected", "Reconnecting"]),
+                            rng.choice([1, 1, 2, 2, 3, 4, 7]), rng.choice(["sendloss", "sendloss", "ackloss"]),
+                            rng.choice([None, None, "MethodMsg", "MethodMsg", "UodInfoMsg", "TagsUpdatedMsg", "RunStoppedMsg",
+                                        "RunStartedMsg", "MethodStateMsg"])])
+            t += 0.1
+            ops.append([round(t, 3), "link", "down"])
+            if rng.random() < 0.5:
+                ops.append([round(t + 0.2, 3), "user", rng.choice(["Stop", "Start", "Restart", "Pause"])])
+            t += rng.choice([0.5, 3.0, 12.0])
+            ops.append([round(t, 3), "link", "up"])
+            t += rng.choice([8.0, 15.0, 25.0])
+        t_end = t + 5.0
+        return {"cfg": {"faults_stop": round(t_end, 3), "settle": 75.0}, "method": method, "ops": ops}
+
     def gen_plan(self, rng: random.Random, profile: str, tier: str) -> dict:
+        if profile == "armed":
+            return self._gen_armed(rng)
         faulty = profile != "faultfree"
         ops: list[list] = []
         t = 1.0
@@ -168,6 +213,12 @@ class SimR(Simulator):
                 ops.append([round(t, 3), "connfail", rng.randint(1, 4)])
             elif r < 0.85:
                 ops.append([round(t, 3), "latency", 0.05, rng.choice([0.2, 0.6])])
+            elif r < 0.95:
+                # a fault placed inside the recovery protocol: the n-th send (optionally of one message type) made
+                # while the runner is in the given state fails or loses its acknowledgement
+                ops.append([round(t, 3), "arm", rng.choice(["CatchingUp", "CatchingUp", "CatchingUp", "Reconnected", "Connected"]),
+                            rng.randint(1, 6), rng.choice(["sendloss", "sendloss", "ackloss"]),
+                            rng.choice([None, None, "MethodMsg", "UodInfoMsg", "TagsUpdatedMsg", "RunStoppedMsg"])])
         if running and rng.random() < 0.7:
             t += 1.0
             ops.append([round(t, 3), "user", "Stop"])
@@ -212,6 +263,7 @@ class SimR(Simulator):
         disp = SimEngineDispatcher(w.builder, net)
         w.set_method_text("", lines=[tuple(x) for x in plan["method"]])
         runner = EngineRunner(disp, w.builder, w.engine.emitter, loop)
+        net.runner = runner
         produced: list[dict] = []
         by_id: dict[int, dict] = {}
 
@@ -255,7 +307,8 @@ class SimR(Simulator):
                 if st in ("Connected", "Reconnected"):
                     steady_samples += 1
                     if steady_samples >= 3 and len(runner._message_buffer) > 0:
-                        res.add("C27", "C27.buffer_not_empty_in_steady_state", st, int(loop.time() * 10),
+                        res.add("C27", "C27.buffer_not_empty_in_steady_state",
+                                f"{st}:{'+'.join(sorted({type(m).__name__ for m in runner._message_buffer}))}", int(loop.time() * 10),
                                 f"runner in {st} for {steady_samples} runner ticks with {len(runner._message_buffer)} "
                                 f"message(s) still in the buffer: "
                                 f"{[type(m).__name__ for m in runner._message_buffer[:4]]}")
@@ -288,12 +341,15 @@ class SimR(Simulator):
                     net.connfail += op[2]
                 elif k == "latency":
                     net.lat_lo, net.lat_hi = op[2], op[3]
+                elif k == "arm":
+                    net.armed.append({"state": op[2], "nth": op[3], "kind": op[4], "type": op[5], "seen": 0})
             # faults stop
             t_stop = plan["cfg"]["faults_stop"]
             if t_stop > loop.time():
                 await asyncio.sleep(t_stop - loop.time())
             net.up = True
             net.sendloss = net.ackloss = net.connfail = 0
+            net.armed.clear()
             net.lat_lo, net.lat_hi = 0.002, 0.03
             rec.log("faults_stop", round(loop.time(), 3))
             await asyncio.sleep(plan["cfg"]["settle"])
@@ -336,7 +392,8 @@ class SimR(Simulator):
                         f"{d['type']} produced at t={d['t']:.2f} in runner state {d['state']} ({d['how']}) was never delivered; "
                         f"attempts {[(round(t, 2), ok) for t, ok in att][:4]}; buffer now {len(runner._message_buffer)}")
         if runner._message_buffer:
-            res.add("C27", "C27.stranded_in_buffer_after_catch_up", st, step,
+            res.add("C27", "C27.stranded_in_buffer_after_catch_up",
+                    f"{st}:{'+'.join(sorted({type(m).__name__ for m in runner._message_buffer}))}", step,
                     f"runner reports {st} but {len(runner._message_buffer)} message(s) remain in its buffer: "
                     f"{[type(m).__name__ for m in runner._message_buffer[:5]]}")
         # (3) duplicates only after a failed attempt; one sequence number per message; no sharing
